@@ -15,6 +15,9 @@ for p in props:
     except ModuleNotFoundError:
         na.append({"property_id": pid, "reason": "check not built yet (work in progress; see DESIGN.md §5 for the planned model and theorems)"})
         continue
+    if getattr(m, "READY", True) is False:
+        na.append({"property_id": pid, "reason": "check being built: model, correspondence suite and theorem statements exist, proofs not yet complete (not claimed until they are)"})
+        continue
     if getattr(m, "NOT_APPLICABLE", None):
         na.append({"property_id": pid, "reason": m.NOT_APPLICABLE})
         continue
